@@ -346,6 +346,28 @@ impl Ctx {
     }
   }
 
+  /// is this signature explained by a listed known finding of this property?
+  pub fn is_known(&self, signature: &str) -> bool {
+    self.findings.iter().any(|f| f.property == self.prop && f.status == "known" && f.matches(signature))
+  }
+
+  /// how many tags of a "direction:tag,tag" signature occur in the class findings of this
+  /// property (used to steer shrinking away from listed constructs)
+  pub fn known_score(&self, signature: &str) -> usize {
+    let tags: Vec<&str> = signature.split_once(':').map(|x| x.1).unwrap_or("").split(',').collect();
+    let mut n = 0;
+    for t in tags {
+      if self
+        .findings
+        .iter()
+        .any(|f| f.property == self.prop && f.status == "known" && (f.all_of.iter().any(|x| x == t) || f.any_of.iter().any(|x| x == t)))
+      {
+        n += 1;
+      }
+    }
+    n
+  }
+
   /// Report an observed disagreement. `signature` is coarse and seed-stable; it is
   /// looked up in known_findings.json (exact match, status "known").
   pub fn report(&mut self, signature: &str, detail: Value) {
